@@ -94,6 +94,9 @@ def split_top(s, sep=','):
 def fn_type_parts(q):
     """'R (A, B) const' -> (R, [A,B])  for a function type string."""
     depth = 0
+    # a conditional exception specification `noexcept(expr)` is not the parameter list
+    m = re.search(r'\)\s*((const|volatile|&|&&)\s*)*noexcept\s*\(', q)
+    if m: q = q[:m.start() + 1]
     # find the last top-level '(' ... ')' group (parameters)
     end = q.rfind(')')
     if end < 0: return q, []
@@ -268,7 +271,7 @@ class TU:
         raise ExtractionBreak('enum "%s" not found' % qual)
     def find_var(self, name):
         for nid, n in self.index.items():
-            if n.get('kind') == 'VarDecl' and n.get('name') == name and any('kind' in c and c['kind'].endswith('Expr') for c in n.get('inner', [])):
+            if n.get('kind') == 'VarDecl' and n.get('name') == name and any('kind' in c and (c['kind'].endswith('Expr') or c['kind'] in TRANSPARENT) for c in n.get('inner', [])):
                 return n
         raise ExtractionBreak('variable "%s" with initializer not found' % name)
 
@@ -400,6 +403,11 @@ class Printer:
             except ExtractionBreak:
                 k = 'ptr'
             if k == 'ptr': return simp_addr(self.expr(a))
+            # an unconverted (no LValueToRValue, no NoOp-to-const cast) non-const scalar lvalue binds to a
+            # non-const reference parameter (out-parameter, e.g. the buffer of communicator::irecv): by address
+            tq = a['type'].get('qualType', '').strip()
+            if k == 'scalar' and a.get('kind') in ('DeclRefExpr', 'MemberExpr') and not (tq.startswith('const ') or tq.endswith(' const')):
+                return simp_addr(self.expr(a))
         return self.expr(a)
     def args(self, arglist, ptypes):
         out = []
@@ -442,6 +450,7 @@ class Printer:
         r = n['referencedDecl']; name = r.get('name')
         if r['kind'] in ('VarDecl', 'ParmVarDecl'):
             q = r.get('type', {}).get('qualType', '')
+            if r['id'] in getattr(self, 'frag_byref', ()): return '(*' + name + ')'
             if self.is_ref(q) and r['id'] not in self.byvalue_params:
                 return '(*' + name + ')'
             return name
@@ -722,6 +731,8 @@ class Printer:
             return out
         if k == 'IfStmt':
             inner = n['inner']
+            fe = self.boost_foreach(n, ind)
+            if fe is not None: return fe
             if n.get('hasInit') or n.get('hasVar'): raise ExtractionBreak('if with init/condition variable')
             out = [ind + 'if (%s)' % self.expr(inner[0])]
             out += self.block(inner[1], ind)
@@ -808,6 +819,66 @@ class Printer:
         if e.startswith('(*') and simp_addr(e) != '&' + e: e = simp_addr(e)
         out = [ind + e + ';']
         out += self.throw_check(ncalls, ind)
+        return out
+    def boost_foreach(self, n, ind):
+        """BOOST_FOREACH(VAR, COL) BODY.  boost/foreach.hpp expands it to
+             if (auto_any_t _foreach_colN = contain(COL, ..)) {} else if (auto_any_t _foreach_curN = begin(..)) {} else
+             if (auto_any_t _foreach_endN = end(..)) {} else for (bool _foreach_continueN = true; ..&& !done(..); ..next(..))
+               if (set_false(_foreach_continueN)) {} else for (VAR = deref(..); !_foreach_continueN; _foreach_continueN = true) BODY
+           It is printed as ONE loop over the collection's own iterator (C = C type of COL, I = C type of its iterator):
+             { I _foreach_itK = C_begin(&COL); for (; C_foreach_more(&COL, &_foreach_itK); I_inc(&_foreach_itK)) { VAR = *I_mul(&_foreach_itK); BODY } }"""
+        def condvar(ifn, prefix):
+            if ifn.get('kind') != 'IfStmt' or not ifn.get('hasVar'): return None
+            ds = ifn['inner'][0]
+            vd = ds.get('inner', [{}])[0] if ds.get('kind') == 'DeclStmt' else {}
+            return vd if vd.get('kind') == 'VarDecl' and vd.get('name', '').startswith(prefix) else None
+        def find_call(t, fname):
+            if not isinstance(t, dict): return None
+            if t.get('kind') == 'CallExpr':
+                cal = self.strip_callee(t['inner'][0])
+                if cal.get('kind') == 'DeclRefExpr' and cal.get('referencedDecl', {}).get('name') == fname: return t
+            for c in t.get('inner', []):
+                r = find_call(c, fname)
+                if r is not None: return r
+            return None
+        vcol = condvar(n, '_foreach_col')
+        if vcol is None: return None
+        try:
+            n2 = n['inner'][3]; vcur = condvar(n2, '_foreach_cur')
+            n3 = n2['inner'][3]; vend = condvar(n3, '_foreach_end')
+            f1 = n3['inner'][3]
+            f2 = f1['inner'][4]['inner'][2]
+            var = f2['inner'][0]['inner'][0]; body = f2['inner'][4]
+            col = find_call(vcol, 'contain')['inner'][1]
+            itq = find_call(vcur, 'begin')['type']
+            itq = itq.get('desugaredQualType') or itq['qualType']
+            assert vcur is not None and vend is not None and f1['kind'] == 'ForStmt' and f2['kind'] == 'ForStmt' and var['kind'] == 'VarDecl'
+        except (KeyError, IndexError, TypeError, AssertionError):
+            raise ExtractionBreak('BOOST_FOREACH expansion of unexpected shape')
+        m = re.match(r'^(?:boost::foreach_detail_::)?auto_any<(.*)>$', itq.strip())
+        if not m: raise ExtractionBreak('BOOST_FOREACH: iterator type not recognised in "%s"' % itq)
+        ic, ik = self.tm.resolve(m.group(1).strip())
+        cc, ck = self.ctype(self.obj_static_type(col))
+        colp = simp_addr(self.expr(col))
+        self.loops += 1; me = self.loops
+        itn = '_foreach_it%d' % me
+        out = [ind + '{', ind + '  %s %s = %s_begin(%s);' % (ic, itn, short(cc), colp)]
+        out.append(ind + '  for (; %s_foreach_more(%s, &%s); %s_inc(&%s)) /*@LOOP %d@*/' % (short(cc), colp, itn, short(ic), itn, me))
+        out += self.loop_contract(me, ind + '  ')
+        out.append(ind + '  {')
+        q = var['type'].get('qualType', '')
+        deref = '%s_mul(&%s)' % (short(ic), itn)
+        if self.is_ref(q) and self.param_mode(q) != 'value':
+            c, k = self.tm.resolve(var['type'].get('desugaredQualType') or q)
+            out.append(ind + '    %s%s = %s;' % (c if c.endswith('*') else c + ' ', var['name'], deref))
+        else:
+            if self.is_ref(q):
+                c, k = self.tm.resolve(q.rstrip('&').strip()); self.byvalue_params.add(var['id'])
+            else:
+                c, k = self.ctype(var['type'])
+            out.append(ind + '    %s %s = (*%s);' % (c, var['name'], deref))
+        out += self.stmt(body, ind + '    ')
+        out += [ind + '  }', ind + '}']
         return out
     def throw_check(self, ncalls, ind):
         if any(c in self.maythrow for c in self.calls[ncalls:]):
@@ -921,6 +992,75 @@ class Printer:
         if wrapper: lines.append(wrapper)
         return '\n'.join(lines), dict(loops=self.loops, dropped=list(self.dropped), calls=sorted(set(self.calls)), has_throw=self.has_throw, sig=sig)
 
+    # ---------- one statement of a function as a function of its own
+    def fragment(self, fn, path, cname, contract='', loop_contracts=None):
+        """print the statement of `fn` selected by `path` (child indices among the statement children of a
+        CompoundStmt / `then` / `else` / `body`, separated by '/') as `void cname(self?, free variables...)`.
+        Free variables (locals / parameters of fn declared outside the statement) become parameters: references keep
+        the parameter convention of function(), everything else is passed BY ADDRESS (the statement may write it)."""
+        self.loops = 0; self.loop_contracts = loop_contracts or {}; self.used_loops = set()
+        self.byvalue_params = set(); self.calls = []; self.has_throw = False
+        self.dropped = []; self.frag_byref = set()
+        node = [c for c in fn['inner'] if c.get('kind') == 'CompoundStmt'][0]
+        for step in [x for x in path.split('/') if x]:
+            kids = [c for c in node.get('inner', []) if isinstance(c, dict)]
+            if step in ('then', 'else'):
+                if node.get('kind') != 'IfStmt': raise ExtractionBreak('fragment path: %s of a %s' % (step, node.get('kind')))
+                idx = 1 if step == 'then' else 2
+                if idx >= len(kids): raise ExtractionBreak('fragment path: no %s branch' % step)
+                node = kids[idx]
+            elif step == 'body':
+                if node.get('kind') not in ('ForStmt', 'WhileStmt', 'DoStmt'): raise ExtractionBreak('fragment path: body of a %s' % node.get('kind'))
+                node = kids[0] if node.get('kind') == 'DoStmt' else kids[-1]
+            else:
+                if node.get('kind') != 'CompoundStmt': raise ExtractionBreak('fragment path: index into a %s' % node.get('kind'))
+                try: node = kids[int(step)]
+                except (ValueError, IndexError): raise ExtractionBreak('fragment path: bad step "%s"' % step)
+        declared = set(); free = []; uses_this = [False]
+        def walk(n):
+            if not isinstance(n, dict): return
+            if n.get('kind') == 'VarDecl' and 'id' in n: declared.add(n['id'])
+            if n.get('kind') == 'CXXThisExpr': uses_this[0] = True
+            if n.get('kind') == 'DeclRefExpr':
+                r = n.get('referencedDecl', {})
+                if r.get('kind') in ('VarDecl', 'ParmVarDecl') and r['id'] not in [f['id'] for f in free]: free.append(r)
+            for c in n.get('inner', []): walk(c)
+        walk(node)
+        params = []
+        if uses_this[0]:
+            rec = self.tu.record_of(fn)
+            c, k = self.tm.lookup(self.tu.qualname(rec))
+            params.append(c + ' *self')
+        for r in free:
+            if r['id'] in declared: continue
+            d = self.tu.index.get(r['id'], r)
+            if d.get('storageClass') == 'static' or self.tu.parent.get(d.get('id'), {}).get('kind') in ('TranslationUnitDecl', 'NamespaceDecl'):
+                continue                      # globals stay globals
+            q = d['type']['qualType']
+            if self.is_ref(q):
+                if self.param_mode(q) == 'value':
+                    self.byvalue_params.add(r['id'])
+                    c, k = self.tm.resolve(q.rstrip('&').strip())
+                    params.append(c + ' ' + r['name'])
+                else:
+                    c, k = self.tm.resolve(q)
+                    params.append((c if c.endswith('*') else c + ' ') + r['name'])
+            else:
+                c, k = self.ctype(d['type'])
+                self.frag_byref.add(r['id'])
+                params.append(c + ' *' + r['name'])
+        self.fn_ret_is_ref = False; self.fn_ret = 'void'
+        blines = self.block(node, '')
+        sig = 'void %s(%s)' % (cname, ', '.join(params) if params else 'void')
+        lines = [sig]
+        if contract.strip(): lines += [l for l in contract.strip().split('\n')]
+        lines += blines
+        missing = set(self.loop_contracts) - self.used_loops
+        if missing:
+            raise ExtractionBreak('%s: spec has loop contracts for loops %s but the statement has %d loops' % (cname, sorted(missing), self.loops))
+        self.frag_byref = set()
+        return '\n'.join(lines), dict(loops=self.loops, dropped=list(self.dropped), calls=sorted(set(self.calls)), has_throw=self.has_throw, sig=sig)
+
     # ---------- records
     def all_fields(self, rec, seen=None):
         """fields of a record including those of its bases (flattened, base first)"""
@@ -976,7 +1116,7 @@ class Printer:
         return None
     def global_var(self, v, cname=None):
         c, k = self.ctype(v['type'])
-        inits = [x for x in v.get('inner', []) if 'kind' in x and x['kind'].endswith('Expr')]
+        inits = [x for x in v.get('inner', []) if 'kind' in x and (x['kind'].endswith('Expr') or x['kind'] in TRANSPARENT)]
         m = re.match(r'^(.*)\[(\d+)\]$', c)
         name = cname or v['name']
         decl = (m.group(1) + ' ' + name + '[' + m.group(2) + ']') if m else c + ' ' + name
